@@ -132,6 +132,30 @@ claimed.update({
 })
 pending = {}
 all_ids = ["C%02d" % i for i in range(1, 21)]
+# additions after the seeded-change rounds (appended to the level text of each property)
+EXTRA = {
+ "C01": " Size classes (40-leaf star, depth-20 chain, bushy tree, attribute-rich nodes); every single-deviation document re-run under 5 process-local time zones (the zone is an owned environment answer).",
+ "C02": " Size classes; every sequence of 1..3 lifecycle entries over typed and custom entries; every single-deviation document re-run under 5 process-local time zones.",
+ "C03": " Size classes; identity attributes under every other node field (by reflection) set to 1..3 generated values on either node x 7 formats.",
+ "C04": " Every string-valued member x a 54-entry adversarial content menu and x the near-misses of its own valid value (separator-aligned prefixes and suffixes, short prefixes, doubled, extended, case-flipped).",
+ "C07": " Containment shapes: every ordered list of <=3 contains-edge objects with 1..2 ordered targets (self included) over four nodes; a case that does not return within the case deadline is a replayable hang violation.",
+ "C08": " Pair histories: two live lists (append-grown slices) + two constant lists, every history of <=3 (thorough 4) operations with either slot as receiver and the other or a constant as argument, no de-duplication, every list of the tuple well-formed after every step.",
+ "C09": " Near-version operands: the two versions of the shared node are one single-field deviation apart (reorderings and sub-second changes included), precedence judged on exact snapshots.",
+ "C10": " Near-version operands as in C09.",
+ "C11": " Identifier value shapes (extra slash, qualifiers+subpath, case, truncated, not a purl) and query arguments derived from the operand's own content.",
+ "C12": " Value class empty non-nil map at every nesting level.",
+ "C13": " Elements that coincide under a normalisation in every order; all ordered pairs of a near-string menu at every string-valued place of a node and an edge.",
+ "C14": " All ordered pairs of a near-string menu (printf verbs, percent escapes, case, blanks, unicode composition, numeric and path spellings) at every string-valued place (nested to depth 2).",
+ "C15": " Size classes, all edge types, extraction after extraction and after mutation on the same source object.",
+ "C16": " Purls with qualifiers and subpaths that share a prefix; case variants; lookups after mutation; a 40-node list.",
+ "C17": " sync/atomic is inside the seam too (vsync/vatomic); the same pairs are also started from the first-use state (lazy initialisation raced by the threads), guarded by a reset-fidelity self-check (each call alone in a new process == after the in-process reset; otherwise the first-use scenarios are skipped and the evidence says so).",
+ "C18": " Failing forms of every call kind (missing file, undetectable file, unregistered format, missing directory) with foreign per-call options.",
+ "C19": " A store that reports success under an injected fault must really have stored the document; identifier collision pairs; equal-length document pairs; logged-path confinement.",
+ "C20": " Recovery histories: every crash state followed, in a new process, by a store (shorter / longer / the same document / another identifier) and a retrieve; the environment with the temporary directory on another file system.",
+}
+for k, v in EXTRA.items():
+    claimed[k]["text"] += v
+
 checks = []
 for pid in all_ids:
     if pid not in claimed: continue
